@@ -6,6 +6,6 @@ CONSTANTS
   AtomKinds = {"ref", "area", "sheet", "func", "str", "num", "name"}
   Masters = {0, 1}
   Shapes = {"col2", "row2", "block"}
-  SiPairs = {0, 1, 2}
+  SiPairs = {0, 1, 2, 3, 4}
 INVARIANTS Refines Dump
 CHECK_DEADLOCK FALSE
